@@ -2,9 +2,14 @@ package dkgprops
 
 import (
 	"context"
+	"math/big"
 	"os"
 	"testing"
 	"time"
+
+	"github.com/shutter-network/shutter/shlib/puredkg"
+
+	"github.com/shutter-network/rolling-shutter/rolling-shutter/shdb"
 )
 
 // TestProbe_AllHonest is a development probe (not a property check).
@@ -82,4 +87,30 @@ func TestProbe_PhaseLength(t *testing.T) {
 			t.Logf("budget=%v L=%d: all-succeed %d/%d premise(in-phase) %d/%d %s", []int{-1, 1, 2}[budget], L, okRuns, runs, premise, runs, why)
 		}
 	}
+}
+
+// TestProbe_GobNil: witness for the restart defect (nil entries of
+// PureDKG.Commitments/Evals do not survive shdb.EncodePureDKG/DecodePureDKG).
+func TestProbe_GobNil(t *testing.T) {
+	if os.Getenv("VERIF_PROBE") == "" {
+		t.Skip("development probe")
+	}
+	p := puredkg.NewPureDKG(1, 3, 2, 0)
+	if _, _, err := p.StartPhase1Dealing(); err != nil {
+		t.Fatal(err)
+	}
+	b, err := shdb.EncodePureDKG(&p)
+	if err != nil {
+		t.Fatal(err)
+	}
+	q, err := shdb.DecodePureDKG(b)
+	if err != nil {
+		t.Fatal(err)
+	}
+	t.Logf("before: commitments=%v evals=%v", p.Commitments, p.Evals)
+	t.Logf("after : commitments=%v evals=%v", q.Commitments, q.Evals)
+	err = q.HandlePolyCommitmentMsg(puredkg.PolyCommitmentMsg{Eon: 1, Sender: 1, Gammas: p.Polynomial.Gammas()})
+	t.Logf("HandlePolyCommitmentMsg after reload: %v", err)
+	err = q.HandlePolyEvalMsg(puredkg.PolyEvalMsg{Eon: 1, Sender: 1, Receiver: 0, Eval: big.NewInt(5)})
+	t.Logf("HandlePolyEvalMsg after reload: %v", err)
 }
